@@ -62,7 +62,7 @@ def one(name):
         notes = open(f"{src}/notes.md").read()[:1500]
     meta = {
         "property": prop,
-        "round": 2 if name.endswith("-2") else 1,
+        "round": int(name.split("-")[1]) if "-" in name else 1,
         "origin": ORIGIN,
         "what_it_needs_to_manifest": "see notes.md (written by the sub-agent); excerpt below",
         "notes_excerpt": notes,
